@@ -307,6 +307,35 @@ theorem extract_iff (toASCII : Bytes → Option Bytes)
   ⟨extract_sound toASCII d p, fun ⟨hv, h⟩ => extract_complete toASCII hDot d p hv h⟩
 
 
+/-! ### 6. consequences: case/dot invariance, `Extract` extends `Prefix` -/
+
+/-- **"Minus one optional trailing dot and ASCII-case-insensitively", made explicit**: two inputs
+that are equal modulo ASCII letter case and one trailing dot are accepted by
+`PrefixFromReversedAddr` together, with the same prefix. -/
+theorem prefix_case_dot_invariant (toASCII : Bytes → Option Bytes)
+    (hDot : ∀ s t, toASCII s = some t → s.head? = some 46 → t.head? = some 46)
+    (hT : ∀ s, (∀ b ∈ s, b < 128) → NoXnLabel s → toASCII s = some s)
+    (s s' : Bytes) (h : asciiLower (trimSuffix s [46]) = asciiLower (trimSuffix s' [46])) (p : Prefix) :
+    prefixFromReversedAddr toASCII s = .ok (.ok p) ↔ prefixFromReversedAddr toASCII s' = .ok (.ok p) := by
+  rw [prefix_iff toASCII hDot hT s p, prefix_iff toASCII hDot hT s' p]
+  unfold labelsOf; rw [h]
+
+/-- The prefix `PrefixFromReversedAddr` returns is a function of the name alone (two accepted
+spellings of one name cannot yield two networks), and `ExtractReversedAddr` on a name that
+`PrefixFromReversedAddr` accepts returns the same network: the whole name is its own longest
+label-aligned ARPA suffix. -/
+theorem extract_extends_prefix (toASCII : Bytes → Option Bytes)
+    (hDot : ∀ s t, toASCII s = some t → s.head? = some 46 → t.head? = some 46)
+    (s : Bytes) (p : Prefix)
+    (h : prefixFromReversedAddr toASCII s = .ok (.ok p))
+    (hv : validateDomainName toASCII (trimSuffix s [46]) = .ok none) :
+    extractReversedAddr toASCII s = .ok (.ok p) := by
+  have hs := prefix_sound toASCII hDot s p h
+  refine (extract_iff toASCII hDot s p).2 ⟨hv, ?_⟩
+  cases hl : labelsOf s with
+  | nil => rw [hl] at hs; simp [arpaPrefixSpec] at hs
+  | cons l ls => rw [hl] at hs; simp [longestArpaSuffix, hs]
+
 /-! ### Non-vacuity: the hypotheses are satisfiable, and each is needed -/
 
 /-- the returned prefix, if the call returned normally without an error -/
